@@ -16,27 +16,23 @@ use std::io::ErrorKind;
 //@fn crates/anstream/src/wincon.rs cap_wincon_color
 //@end
 
-const MAXC: usize = 8;
+const MAXC: usize = 6;
 
-/// recording console: each call may accept any non-empty prefix, accept nothing, or fail
+/// recording console: each call may accept any prefix (also nothing) or fail
 struct Console {
     calls: usize,
     fg: [Option<anstyle::AnsiColor>; MAXC],
     bg: [Option<anstyle::AnsiColor>; MAXC],
-    /// bytes accepted over all calls, in order
-    text: [u8; 16],
-    len: usize,
-    /// for each call: how many bytes were offered / accepted
-    offered: [usize; MAXC],
-    accepted: [usize; MAXC],
+    ptr: [usize; MAXC],
+    len: [usize; MAXC],
+    /// 0..=len accepted, 100 = Interrupted, 101 = Other
+    outcome: [usize; MAXC],
     faults_left: u8,
-    saw_escape: bool,
-    last_fatal: Option<ErrorKind>,
 }
 
 impl Console {
     fn new(faults: u8) -> Self {
-        Console { calls: 0, fg: [None; MAXC], bg: [None; MAXC], text: [0; 16], len: 0, offered: [0; MAXC], accepted: [0; MAXC], faults_left: faults, saw_escape: false, last_fatal: None }
+        Console { calls: 0, fg: [None; MAXC], bg: [None; MAXC], ptr: [0; MAXC], len: [0; MAXC], outcome: [0; MAXC], faults_left: faults }
     }
 }
 
@@ -44,39 +40,26 @@ impl anstyle_wincon::WinconStream for Console {
     fn write_colored(&mut self, fg: Option<anstyle::AnsiColor>, bg: Option<anstyle::AnsiColor>, data: &[u8]) -> std::io::Result<usize> {
         let i = self.calls;
         self.calls += 1;
-        let mut take = data.len();
+        let mut out = data.len();
         if self.faults_left > 0 && vk::any_bool() {
             self.faults_left -= 1;
             let what = vk::any_u8_in(0, 2);
-            if what == 0 {
-                return Err(ErrorKind::Interrupted.into());
-            } else if what == 1 {
-                self.last_fatal = Some(ErrorKind::Other);
-                return Err(ErrorKind::Other.into());
-            }
-            take = vk::any_usize_in(0, data.len());
-            if take == 0 && !data.is_empty() {
-                self.last_fatal = Some(ErrorKind::WriteZero);
-            }
+            out = if what == 0 { 100 } else if what == 1 { 101 } else { vk::any_usize_in(0, data.len()) };
         }
         if i < MAXC {
             self.fg[i] = fg;
             self.bg[i] = bg;
-            self.offered[i] = data.len();
-            self.accepted[i] = take;
+            self.ptr[i] = data.as_ptr() as usize;
+            self.len[i] = data.len();
+            self.outcome[i] = out;
         }
-        let mut k = 0;
-        while k < take {
-            if data[k] == 0x1b {
-                self.saw_escape = true;
-            }
-            if self.len < 16 {
-                self.text[self.len] = data[k];
-                self.len += 1;
-            }
-            k += 1;
+        if out == 100 {
+            Err(ErrorKind::Interrupted.into())
+        } else if out == 101 {
+            Err(ErrorKind::Other.into())
+        } else {
+            Ok(out)
         }
-        Ok(take)
     }
 }
 
@@ -93,119 +76,114 @@ fn wincon_cap_color() {
     vk::vk_cover!(c.tag == 1 && c.a == 16, "index 16");
 }
 
-/// concrete styled inputs: the runs a conforming terminal would show, with capped colours
-struct Expect {
-    input: &'static [u8],
-    text: &'static [u8],
-    /// (length, fg index or 16, bg index or 16) per run
-    runs: &'static [(usize, u8, u8)],
+use crate::adapter::verif_kani_wincon_sgr::{EXTRACT_CALLS, RUN_LEN, RUN_N, RUN_PTR, RUN_STYLE, RUN_TOTAL};
+
+fn cap(c: Option<anstyle::Color>) -> Option<anstyle::AnsiColor> {
+    match c {
+        Some(anstyle::Color::Ansi(a)) => Some(a),
+        Some(anstyle::Color::Ansi256(i)) if i.0 < 16 => Some(crate::verif_kani::astyle::ansi_from_index(i.0)),
+        _ => None,
+    }
 }
 
-const CASES: [Expect; 4] = [
-    Expect { input: b"a\x1b[31mbc\x1b[0md", text: b"abcd", runs: &[(1, 16, 16), (2, 1, 16), (1, 16, 16)] },
-    Expect { input: b"\x1b[38;5;9mx\x1b[48;2;1;2;3my\x1b[38;5;200mz", text: b"xyz", runs: &[(1, 9, 16), (1, 9, 16), (1, 16, 16)] },
-    Expect { input: b"\x1b[1;44m\xc3\xa9\x1b]0;t\x07!", text: b"\xc3\xa9!", runs: &[(3, 16, 4)] },
-    Expect { input: b"p\x1b[97;100mq\x1b[39mr", text: b"pqr", runs: &[(1, 16, 16), (1, 15, 8), (1, 16, 8)] },
-];
-
-fn color_at(i: u8) -> Option<anstyle::AnsiColor> {
-    if i < 16 { Some(crate::verif_kani::astyle::ansi_from_index(i)) } else { None }
-}
-
-/// write_all against every console script with <= 2 misbehaving calls
-fn write_all_case(k: usize) {
-    let case = &CASES[k];
+/// write_all against every extractor answer (0-2 runs, arbitrary styles, 1-2 byte texts) and
+/// every console script with at most two misbehaving calls
+#[cfg_attr(kani, kani::proof, kani::unwind(14),
+    kani::stub(crate::adapter::wincon::next_bytes, crate::adapter::verif_kani_wincon_sgr::wincon_next_recorder))]
+fn wincon_write_all_plumbing() {
+    let buf = [b'x'; 3];
     let mut console = Console::new(2);
     let mut state = WinconBytes::new();
-    let r = write_all(&mut console, &mut state, case.input);
-    assert!(!console.saw_escape, "an escape byte is never passed to the console as text");
+    let r = write_all(&mut console, &mut state, &buf);
+    let (nruns, total) = unsafe { (RUN_N, RUN_TOTAL) };
+    // walk the console calls against the runs, in order
+    let mut c = 0usize;
+    let mut fatal: Option<ErrorKind> = None;
+    let mut done_runs = 0usize;
+    let mut ri = 0;
+    while ri < 2 {
+        if ri < nruns && fatal.is_none() {
+            let style = unsafe { RUN_STYLE[ri] }.unwrap();
+            let (ptr, len) = unsafe { (RUN_PTR[ri], RUN_LEN[ri]) };
+            let mut off = 0usize;
+            let mut step = 0;
+            while step < MAXC {
+                if off < len && fatal.is_none() {
+                    assert!(c < console.calls, "every visible byte of every run is handed to the console");
+                    assert!(console.fg[c] == cap(style.get_fg_color()) && console.bg[c] == cap(style.get_bg_color()),
+                        "each run reaches the console with its foreground and background reduced to the 16-colour palette");
+                    assert!(console.ptr[c] == ptr + off && console.len[c] == len - off, "the console is offered exactly the part of the run not yet accepted: nothing twice, nothing skipped");
+                    let o = console.outcome[c];
+                    if o == 100 {
+                        // Interrupted: retried
+                    } else if o == 101 {
+                        fatal = Some(ErrorKind::Other);
+                    } else if o == 0 {
+                        fatal = Some(ErrorKind::WriteZero);
+                    } else {
+                        off += o;
+                    }
+                    c += 1;
+                }
+                step += 1;
+            }
+            if off == len {
+                done_runs += 1;
+            }
+        }
+        ri += 1;
+    }
+    assert!(c == console.calls, "the console receives nothing but the runs");
     match &r {
         Ok(()) => {
-            assert!(console.last_fatal.is_none(), "write_all succeeds only if the console never failed fatally");
-            assert!(console.len == case.text.len(), "every visible byte is handed to the console exactly once");
+            assert!(fatal.is_none() && done_runs == nruns && nruns == total, "write_all succeeds only after every run was handed over completely");
         }
         Err(e) => {
-            assert!(console.last_fatal == Some(e.kind()), "a console error reaches the caller with its kind");
-            assert!(console.len <= case.text.len(), "on error at most a prefix was handed over");
+            assert!(fatal == Some(e.kind()), "a console error (or a zero-length write) reaches the caller with its kind");
         }
     }
-    if console.last_fatal.is_some() {
+    if fatal.is_some() {
         assert!(r.is_err(), "a fatal console outcome is never turned into success");
     }
-    // what was handed over is a prefix of the visible text, in order
-    let mut i = 0;
-    while i < 16 {
-        if i < console.len {
-            assert!(console.text[i] == case.text[i], "the console receives the visible text in order, nothing duplicated or lost");
-        }
-        i += 1;
-    }
-    // every call carries the capped colours of the run its bytes belong to
-    let mut pos = 0usize; // visible bytes accepted before this call
+    vk::vk_cover!(r.is_ok() && nruns == 2 && console.calls >= 3, "two runs with a retry or short write");
+    vk::vk_cover!(r.is_err(), "error path");
+}
+
+/// `write`: one console call per run; a buffer is reported as consumed only if all of its text was handed over
+#[cfg_attr(kani, kani::proof, kani::unwind(14),
+    kani::stub(crate::adapter::wincon::next_bytes, crate::adapter::verif_kani_wincon_sgr::wincon_next_recorder))]
+fn wincon_write_reports_progress() {
+    let buf = [b'x'; 3];
+    let mut console = Console::new(1);
+    let mut state = WinconBytes::new();
+    let r = write(&mut console, &mut state, &buf);
+    let nruns = unsafe { RUN_N };
+    // every run that was extracted is offered to the console once, whole, with capped colours
+    let mut all_accepted = true;
     let mut c = 0;
     while c < MAXC {
-        if c < console.calls && console.offered[c] > 0 {
-            // find the run containing visible byte `pos`
-            let mut start = 0usize;
-            let mut j = 0;
-            let mut fg = 16u8;
-            let mut bg = 16u8;
-            let mut end = 0usize;
-            while j < case.runs.len() {
-                if start <= pos && pos < start + case.runs[j].0 {
-                    fg = case.runs[j].1;
-                    bg = case.runs[j].2;
-                    end = start + case.runs[j].0;
-                }
-                start += case.runs[j].0;
-                j += 1;
+        if c < console.calls {
+            assert!(c < nruns, "write offers each run once");
+            let style = unsafe { RUN_STYLE[c] }.unwrap();
+            assert!(console.fg[c] == cap(style.get_fg_color()) && console.bg[c] == cap(style.get_bg_color()),
+                "each run reaches the console with its foreground and background reduced to the 16-colour palette");
+            assert!(console.ptr[c] == unsafe { RUN_PTR[c] } && console.len[c] == unsafe { RUN_LEN[c] }, "write offers the whole run");
+            if console.outcome[c] != console.len[c] {
+                all_accepted = false;
             }
-            assert!(console.fg[c] == color_at(fg) && console.bg[c] == color_at(bg), "each run reaches the console with its foreground and background reduced to the 16-colour palette");
-            assert!(pos + console.offered[c] <= end || end == 0, "a console call never spans two differently styled runs");
-            pos += console.accepted[c];
         }
         c += 1;
     }
-}
-
-#[cfg_attr(kani, kani::proof, kani::unwind(40))]
-#[cfg_attr(not(kani), test)]
-fn wincon_write_all_case0() {
-    write_all_case(0);
-}
-
-#[cfg_attr(kani, kani::proof, kani::unwind(40))]
-#[cfg_attr(not(kani), test)]
-fn wincon_write_all_case1() {
-    write_all_case(1);
-}
-
-#[cfg_attr(kani, kani::proof, kani::unwind(40))]
-#[cfg_attr(not(kani), test)]
-fn wincon_write_all_case2() {
-    write_all_case(2);
-}
-
-#[cfg_attr(kani, kani::proof, kani::unwind(40))]
-#[cfg_attr(not(kani), test)]
-fn wincon_write_all_case3() {
-    write_all_case(3);
-}
-
-/// `write`: a buffer is reported as consumed only if all of its text was handed over
-#[cfg_attr(kani, kani::proof, kani::unwind(40))]
-#[cfg_attr(not(kani), test)]
-fn wincon_write_reports_progress() {
-    let case = &CASES[0];
-    let mut console = Console::new(1);
-    let mut state = WinconBytes::new();
-    let r = write(&mut console, &mut state, case.input);
-    assert!(!console.saw_escape, "an escape byte is never passed to the console as text");
-    if let Ok(n) = r {
-        assert!(n <= case.input.len(), "write reports a count no larger than the buffer");
-        if n == case.input.len() {
-            assert!(console.len == case.text.len(), "write reports a buffer as consumed only if all of its text was handed over");
+    match &r {
+        Ok(n) => {
+            assert!(*n <= buf.len(), "write reports a count no larger than the buffer");
+            if *n == buf.len() {
+                assert!(all_accepted, "write reports a buffer as consumed only if all of its text was handed over");
+            }
+        }
+        Err(e) => {
+            assert!(console.calls >= 1 && console.outcome[console.calls - 1] >= 100 && (e.kind() == ErrorKind::Interrupted || e.kind() == ErrorKind::Other), "a console error reaches the caller");
         }
     }
-    vk::vk_cover!(r.is_ok() && console.len < case.text.len(), "short console write");
+    vk::vk_cover!(r.is_ok() && !all_accepted, "short console write");
 }
